@@ -494,11 +494,32 @@ pub const C14H: ConcCheck = ConcCheck { sub: "cap-helpers", mix: Mix::Helpers, m
 /// A tree bin must still answer lookups in O(log n) comparisons after writers and readers contended
 /// for it (the state of its lock word decides whether readers may use the tree at all), migrated
 /// it, or converted it: counted after the run, key by key (`ExecOpts::cmp_bound`)
-fn c06c_judge(_prog: &Prog, out: &ConcOut) -> Result<(bool, Vec<(&'static str, u64)>), JudgeErr> {
+fn c06c_judge(prog: &Prog, out: &ConcOut) -> Result<(bool, Vec<(&'static str, u64)>), JudgeErr> {
     base_judge("C06", out)?;
+    // a lookup that shares its tree bin with other READERS only must still be logarithmic: in a
+    // program without any update nobody holds or awaits the tree's write lock, so the linear
+    // fallback is never justified (the structure is the one found after the run)
+    let read_only = !prog.has(|o| !matches!(o, COp::Get(_) | COp::GetKV(_) | COp::Contains(_)));
+    let mut measured = 0u64;
+    if read_only && out.table_len_after >= 64 && out.table_len_after == out.table_len_before {
+        let mask = out.table_len_after as u64 - 1;
+        for (t, tag, c) in &out.recs.lookup_cmps {
+            let b = (prog.cfg.hmode.hash_tag(*tag) & mask) as usize;
+            if let Some((true, n)) = out.bins_after.get(&b) {
+                if *n >= 8 {
+                    measured += 1;
+                    let bound = (4.0 * ((*n + 1) as f64).log2()).ceil() as u64 + 2;
+                    if *c > bound {
+                        return Err(("C06".into(), format!("[C06] the lookup of key {} by T{} in a tree bin of {} colliding keys cost {} key comparisons (bound {}) although only other lookups were running: the bin was searched linearly", tag, t, n, c, bound)));
+                    }
+                }
+            }
+        }
+    }
     let (_, tr) = crossed(out);
     let mut c = std_classes(out, 0);
     c.push(("schedules_ending_with_a_tree_bin", (out.tree_bins_after > 0) as u64));
+    c.push(("lookups_among_readers_whose_comparisons_were_counted", measured));
     Ok((out.tree_bins_after > 0 && (out.parked || out.blocked || tr), c))
 }
 pub const C06T: ConcCheck = ConcCheck { asked: "C06", sub: "tree-conc", mix: Mix::TreeMove, max_threads: 3, max_ops: 3, opts: ExecOpts { cmp_bound: true, ..ExecOpts::DEFAULT }, judge: c06c_judge, mk_probe: NO_PROBE };
